@@ -12,6 +12,7 @@ use ip::{
 };
 use netconf::message::{rpc::operation::Datastore, ReadError, ReadXml};
 use quick_xml::{
+    escape::unescape,
     events::{BytesStart, Event},
     name::{Namespace, ResolveResult},
     NsReader,
@@ -184,7 +185,7 @@ impl ReadXml for Maybe<Candidate> {
                 (ResolveResult::Bound(XNM), Event::Start(tag))
                     if tag.local_name().as_ref() == b"name" && name.is_none() =>
                 {
-                    name = Some(reader.read_text(tag.to_end().name()).map(Name::new)?);
+                    name = Some(read_name(reader, &tag)?);
                 }
                 (ResolveResult::Bound(XNM), Event::Start(tag))
                     if tag.local_name().as_ref() == b"then" && !reject_policy =>
@@ -243,7 +244,7 @@ impl ReadXml for Maybe<Installed> {
                     if tag.local_name().as_ref() == b"name" && name.is_none() =>
                 {
                     tracing::debug!(?tag);
-                    name = Some(reader.read_text(tag.to_end().name()).map(Name::new)?);
+                    name = Some(read_name(reader, &tag)?);
                     tracing::debug!(?name);
                 }
                 (ResolveResult::Bound(XNM), Event::Start(tag))
@@ -310,6 +311,13 @@ impl ReadXml for Maybe<Installed> {
             Ok(Self(None))
         }
     }
+}
+
+/// Read the (XML-escaped) text of a `<name>` element as a policy-statement name.
+fn read_name(reader: &mut NsReader<&[u8]>, tag: &BytesStart<'_>) -> Result<Name, ReadError> {
+    let text = reader.read_text(tag.to_end().name())?;
+    let name = unescape(&text).map_err(quick_xml::Error::from)?;
+    Ok(Name::new(name))
 }
 
 /// Strip the whitespace surrounding token-valued element text.
